@@ -20,6 +20,7 @@ import VModel.StateRes
 import VProofs.StateResInvariant
 import VProofs.StateResKahnTopo2
 import VProofs.StateResV1g
+import VProofs.StateResV1Ex
 import VProofs.StateResOld
 namespace V.C11
 open V V.StateRes List
@@ -365,11 +366,12 @@ theorem linearise_deterministic {all all' : List Event} (hU : IdsIn (all ++ all'
 
 /-! ## 4. Version 1 (`ResolveStateConflicts`; `ResolveConflictsNew` for room versions with algorithm 1)
 
-  Precondition of the version-1 resolver (its documented input: "the unconflicted auth events needed for auth checks"):
-  (P1) supplied auth events occupying one slot are equal; (P2) no supplied auth event occupies the slot of a conflicted event;
-  (P3) the candidates of one slot have distinct (depth, SHA-1 of the event ID) — `sha` is an arbitrary function of the ID.
-  Without (P2) the result DOES depend on the order of the conflicted events (see the report: a resolved member block clears its
-  slot, so a sibling block resolved later no longer sees the supplied auth event of that slot). -/
+  Precondition of the version-1 resolver: (P1) supplied auth events occupying one slot are equal (`addAuthEvent` keeps the
+  last one in caller order); (P3) the candidates of one slot have distinct (depth, SHA-1 of the event ID) — `sha` is an
+  arbitrary function of the ID.  The former (P2) "no supplied auth event occupies the slot of a conflicted event" is no longer
+  needed: since /repo e1299c1 `resolveAuthBlock` puts the supplied auth event of a slot back once the block is resolved
+  (before, a sibling block resolved later no longer saw it — the order dependence reproduced on the real code; the former
+  witness is `V.StateRes.V1Ex.ex_order1/ex_order2/ex_invariant` in VProofs/StateResV1Ex.lean). -/
 
 theorem v1_result_unique_keys (sha : ID → Bytes) (conflicted auth : List Event) :
     ((resolveV1 sha conflicted auth).map keyOf).Nodup := V.StateRes.v1_result_unique_keys sha conflicted auth
@@ -383,10 +385,10 @@ theorem v1_result_keys_complete (sha : ID → Bytes) (conflicted auth : List Eve
   V.StateRes.v1_result_keys_complete sha conflicted auth K
 
 /-- **Sibling blocks are independent** (the deferral of registration in `resolveAndAddAuthBlocks`): one call on two
-    arrangements of the same blocks, against well-formed resolver states with equal lookups in which the blocks' slots are
-    empty, yields the same winners (up to order) and again states with equal lookups. -/
+    arrangements of the same blocks (each block = the candidates of one slot), against well-formed resolver states with equal
+    lookups, yields the same winners (up to order) and again states with equal lookups. -/
 theorem blocks_order_irrelevant (sha : ID → Bytes) (valid : Bool) {s s' : V1State} {blocks blocks' : List (List Event)}
-    (hw : s.WF) (hw' : s'.WF) (hsim : s.Sim s') (heq : SetsEquiv blocks blocks') (hb : BlocksEmpty s blocks)
+    (hw : s.WF) (hw' : s'.WF) (hsim : s.Sim s') (heq : SetsEquiv blocks blocks') (hb : BlocksSlots blocks)
     (hdist : blocks.Pairwise (fun b1 b2 => ∀ e1 ∈ b1, ∀ e2 ∈ b2, keyOf e1 ≠ keyOf e2))
     (hinj : ∀ b ∈ blocks, ∀ x ∈ b, ∀ y ∈ b, x.depth = y.depth → sha x.eventID = sha y.eventID → x = y) :
     (resolveAndAddAuthBlocks sha valid s blocks).2 ~ (resolveAndAddAuthBlocks sha valid s' blocks').2 ∧
@@ -394,20 +396,18 @@ theorem blocks_order_irrelevant (sha : ID → Bytes) (valid : Bool) {s s' : V1St
   let h := V.StateRes.blocks_order_irrelevant sha valid hw hw' hsim heq hb hdist hinj
   ⟨h.1, h.2.1⟩
 
-/-- **Version 1 is order independent** under its documented precondition. -/
+/-- **Version 1 is order independent** (one supplied auth event per slot, distinct sort keys inside a slot). -/
 theorem v1_perm_invariant (sha : ID → Bytes) {conflicted conflicted' auth auth' : List Event}
     (hc : conflicted ~ conflicted') (ha : SameSet auth auth')
     (P1 : ∀ a ∈ auth, ∀ b ∈ auth, a.stateKey.isSome → keyOf a = keyOf b → b.stateKey.isSome → a = b)
-    (P2 : ∀ a ∈ auth, ∀ c ∈ conflicted, a.stateKey.isSome → c.stateKey.isSome → keyOf a ≠ keyOf c)
     (P3 : ∀ a ∈ conflicted, ∀ b ∈ conflicted, a.stateKey.isSome → b.stateKey.isSome → keyOf a = keyOf b →
       a.depth = b.depth → sha a.eventID = sha b.eventID → a = b) :
     resolveV1 sha conflicted auth ~ resolveV1 sha conflicted' auth' :=
-  V.StateRes.v1_perm_invariant sha hc ha P1 P2 P3
+  V.StateRes.v1_perm_invariant sha hc ha P1 P3
 
 /-- the version-1 precondition, for an input of `ResolveConflictsNew` -/
 structure V1Input (sha : ID → Bytes) (sets : List (List Event)) (auth : List Event) : Prop where
   P1 : ∀ a ∈ auth, ∀ b ∈ auth, a.stateKey.isSome → keyOf a = keyOf b → b.stateKey.isSome → a = b
-  P2 : ∀ a ∈ auth, ∀ c ∈ (splitConflictedUnconflicted true sets).1, a.stateKey.isSome → c.stateKey.isSome → keyOf a ≠ keyOf c
   P3 : ∀ a ∈ (splitConflictedUnconflicted true sets).1, ∀ b ∈ (splitConflictedUnconflicted true sets).1,
       a.stateKey.isSome → b.stateKey.isSome → keyOf a = keyOf b → a.depth = b.depth → sha a.eventID = sha b.eventID → a = b
 
@@ -434,9 +434,9 @@ theorem resolveConflictsNew_perm_invariant (sha : ID → Bytes) (ver : Bytes) {s
   | none => simp [resolveConflictsNew, hv, SameAnswer]
   | some row =>
     by_cases h1 : row.stateResAlgorithm = 1
-    · obtain ⟨P1, P2, P3⟩ := hv1 row hv h1
+    · obtain ⟨P1, P3⟩ := hv1 row hv h1
       obtain ⟨l, l', e1, e2, hp⟩ := resolveConflictsNew_v1_perm_invariant sha ver hv h1 hin.ids rejected rejected
-        Input.setsU hs ha P1 P2 P3
+        Input.setsU hs ha P1 P3
       rw [e1, e2]; exact hp
     · have h1' : (row.stateResAlgorithm == 1) = false := by simpa using h1
       unfold resolveConflictsNew
@@ -501,11 +501,11 @@ theorem resolveConflictsOld_perm_invariant (sha : ID → Bytes) (ver : Bytes) {e
   | none => simp [resolveConflictsOld, hv, SameAnswer]
   | some row =>
     by_cases h1 : row.stateResAlgorithm = 1
-    · obtain ⟨P1, P2, P3⟩ := hv1 row hv h1
+    · obtain ⟨P1, P3⟩ := hv1 row hv h1
       rw [resolveConflictsOld_v1 sha ver events auth rejected hv h1, resolveConflictsOld_v1 sha ver events' auth' rejected hv h1]
       have hU' : IdsIn ([events].flatten ++ auth) := by simpa using hU
       obtain ⟨l, l', e1, e2, hp⟩ := resolveConflictsNew_v1_perm_invariant sha ver hv h1 hU' rejected rejected
-        Input.setsU (setsEquiv_singleton he) ha P1 P2 P3
+        Input.setsU (setsEquiv_singleton he) ha P1 P3
       rw [e1, e2]; exact hp
     · by_cases h23 : row.stateResAlgorithm = 2 ∨ row.stateResAlgorithm = 3
       · rw [resolveConflictsOld_v2 sha ver events auth rejected hv h23, resolveConflictsOld_v2 sha ver events' auth' rejected hv h23]
@@ -598,6 +598,23 @@ example : Acyclic (fun e => if e.eventID = b!"$b" then [b!"$create", b!"$a"] els
 /-- equal state sets: hypotheses of `resolve_all_equal` -/
 example : IdNodup [eCreate, eA, eN] ∧ ([eCreate, eA, eN].map keyOf).Nodup ∧ (∀ e ∈ [eCreate, eA, eN], e.stateKey.isSome) := by
   refine ⟨by unfold IdNodup; decide, by decide, by decide⟩
+
+/-- the version-1 precondition holds for the former witness of the order dependence (two state sets conflicting on the
+    memberships of @a:x and @b:x; the auth event `AJ` sits on the conflicted slot of @a:x — allowed now) -/
+example : V1Input id [[V1Ex.a1, V1Ex.b1], [V1Ex.a2, V1Ex.b2]] [V1Ex.C, V1Ex.AJ] := by
+  have sub : ∀ x ∈ (splitConflictedUnconflicted true [[V1Ex.a1, V1Ex.b1], [V1Ex.a2, V1Ex.b2]]).1,
+      x ∈ [V1Ex.a1, V1Ex.a2, V1Ex.b1, V1Ex.b2] := by
+    intro x hx
+    have := (split_sub true _ (Or.inl hx)).1
+    simp only [List.flatten_cons, List.flatten_nil, List.cons_append, List.nil_append, List.append_nil,
+      List.mem_cons, List.not_mem_nil, or_false] at this ⊢
+    rcases this with h | h | h | h <;> simp [h]
+  exact ⟨V1Ex.ex_P1, fun a ha b hb => V1Ex.ex_P3 a (sub a ha) b (sub b hb)⟩
+
+/-- and on it both block orders now give the same resolved events (before /repo e1299c1: `[$a2,$b1]` vs `[$b2,$a2]`) -/
+example : (resolveV1 id [V1Ex.a1, V1Ex.a2, V1Ex.b1, V1Ex.b2] [V1Ex.C, V1Ex.AJ]).map (·.eventID) = [b!"$a2", b!"$b2"] ∧
+    (resolveV1 id [V1Ex.b1, V1Ex.b2, V1Ex.a1, V1Ex.a2] [V1Ex.C, V1Ex.AJ]).map (·.eventID) = [b!"$b2", b!"$a2"] :=
+  ⟨V1Ex.ex_order1, V1Ex.ex_order2⟩
 
 end Examples
 
